@@ -332,7 +332,7 @@ pub fn rd_reset(head: [u8; 16], len: usize) {
 pub fn stub_reader_read<'a>(r: &mut LogReader<'a>, buf: &mut [u8]) -> Result<()> where 'a: 'a {
 	unsafe {
 		let n = buf.len();
-		if RD_POS + n > RD_LEN { return Err(Error::Io(std::io::Error::from(std::io::ErrorKind::UnexpectedEof))) }
+		if RD_POS + n > RD_LEN { return Err(Error::Io(std::io::Error::from(std::io::ErrorKind::UnexpectedEof).into())) }
 		let mut k = 0;
 		while k < 16 { if k < n && RD_POS + k < 16 { buf[k] = RD_HEAD[RD_POS + k]; } k += 1; }
 		RD_POS += n;
@@ -701,6 +701,9 @@ pub fn log_set_minimal_record() -> usize {
 	}
 }
 pub fn log_bytes() -> [u8; LOG_BYTES] { unsafe { BUF } }
+/// Arbitrary log bytes, concrete logical length (truncation offset enumerated by the harness family).
+pub fn log_poke(i: usize, v: u8) { unsafe { BUF[i] = v; } }
+pub fn log_set_len(n: usize) { unsafe { BUF = kani::any(); LEN = n; POS = 0; } }
 pub fn log_attach_reader(log: &Log, fd: i32) { *log.reading.write() = Some(Reading { id: 0, file: std::io::BufReader::with_capacity(0, vc::raw_file(fd)) }); }
 pub fn log_queue_replay(log: &Log, id: u32, record: u64) { log.replay_queue.write().push_back((id, record, vc::raw_file(20))); }
 pub fn log_replay_len(log: &Log) -> usize { log.replay_queue.read().len() }
